@@ -598,3 +598,40 @@ def format_types(ctx, P, rule="FORMAT-TYPES", only=None):
                        "unit `%s` (%s) for `%s` of type %s: the value changes sign / width on the way to Python" % (u, "signed" if u[0] in SIGNED_UNITS else "unsigned", estr(v), ity))
                 k += 1
     return n
+
+
+def treeseq_readonly(ctx, P, rule="TS-READONLY"):
+    ctx.rule(rule, "no module function hands the tables of a live tree sequence (`…->tree_sequence->tables`) to a libtskit parameter that "
+                   "is not const-qualified, and only the constructors / destructor (TreeSequence_alloc, _load, _load_tables, _dealloc "
+                   "and the operations that build a *new* tree sequence) call tsk_treeseq_init / _load / _free")
+    tu = P.tus["module"]
+    n = 0
+    for fn in tu.funcs.values():
+        k = 0
+        for c in calls(fn.body):
+            nm = callee(c)
+            if nm is None:
+                continue
+            for i, a in enumerate(c.kids[1:]):
+                t = estr(a)
+                if re.search(r"tree_sequence->tables$", t) or re.fullmatch(r"self->tree_sequence->tables", t):
+                    cal = P.func(nm)
+                    n += 1
+                    if cal is None or i >= len(cal.params):
+                        ctx.ob(rule, "%s->%s@%d" % (fn.name, nm, k), nm.startswith("Py") or nm.startswith("make_") or cal is None, tu.loc(c), "passed to %s" % nm)
+                    else:
+                        pty = cal.params[i].ty or ""
+                        ok = "const" in pty
+                        ctx.ob(rule, "%s->%s@%d" % (fn.name, nm, k), ok, tu.loc(c),
+                               "tables passed to `%s` parameter %d of %s" % (pty, i, nm))
+                    k += 1
+            if nm in ("tsk_treeseq_init", "tsk_treeseq_load", "tsk_treeseq_loadf", "tsk_treeseq_free"):
+                a0 = estr(c.kids[1])
+                own = a0 in ("self->tree_sequence",)
+                if own:
+                    okc = fn.name in ("TreeSequence_load", "TreeSequence_load_tables", "TreeSequence_dealloc", "TreeSequence_alloc", "TreeSequence_init")
+                    n += 1
+                    ctx.ob(rule, "%s|%s(self->tree_sequence)" % (fn.name, nm), okc, tu.loc(c),
+                           "%s re-initialises / frees the object's own tree sequence" % fn.name)
+    ctx.ob(rule, "instances", n >= 3, "python/_tskitmodule.c", "%d uses of a live tree sequence's tables / lifecycle calls analysed" % n)
+    return n
